@@ -206,3 +206,19 @@ Definition select_unfiltered (db : list entry) (cites : list key) (m : Z) : list
   let (cs, rs) := add_extra E cites m in
   let ev := remove_missing E cs in
   (yields ev, bd_reports bd ++ rs ++ reports ev).
+
+(* ---- Entry._find_field / _find_crossref_field (database/__init__.py:500-534): the entries whose
+        fields an entry of the read database sees -- itself, then the entry its crossref names, and so
+        on, until a dangling reference, an entry without crossref, or (the _visited guard) a repeat.
+        Collected as a list of stored keys; only the SET is observed (fuel |E|+1 reaches every member). *)
+Fixpoint chain (E : edict) (fuel : nat) (c : key) : list key :=
+  match fuel with
+  | O => []
+  | S f =>
+    match ed_get c E with
+    | Some (k, Some p) => k :: chain E f p
+    | Some (k, None) => [k]
+    | None => []
+    end
+  end.
+Definition ancestors (E : edict) (c : key) : list key := chain E (S (length E)) c.
